@@ -191,7 +191,12 @@ async def _run_test_task(self: Any, node: Any) -> None:
         ev["spawn_handle"] = node.params["nets_host"] or "process"
     await vsched.Suspend("test", run.duration_of(ev), ev)
     status = run.choose_status(ev)
-    if status != "NONE":
+    if status.startswith("LATE:"):
+        # the result record arrives only while the runner is already polling for it
+        status = status[5:]
+        run.late[worker.id] = {"name": _MockID(uid, name), "status": status, "time_elapsed": run.elapsed_of(ev), "logdir": "."}
+        ev["late"] = True
+    elif status != "NONE":
         self.job.result.tests.append({"name": _MockID(uid, name), "status": status, "time_elapsed": run.elapsed_of(ev), "logdir": "."})
     run.on_end(ev, status)
 
@@ -291,6 +296,10 @@ def menu(name: str, **kw: Any) -> Scenario:
         "G7l": ("leaves..tutorial_get..explicit_noop", "net1 net2"),
         "G8": ("leaves..client_noop,leaves..explicit_noop", "net1 net5"),
         "G8b": ("leaves..client_noop,leaves..explicit_noop", "net1 net2"),
+        "G9": ("leaves..tutorial1,leaves..tutorial2", "net1 net2"),
+        "G4g": ("leaves..tutorial_get..implicit_both,leaves..tutorial_finale", "net1"),
+        "G4h": ("leaves..tutorial_get..implicit_both,leaves..tutorial_finale", "net1 net2"),
+        "G10": ("normal..tutorial_gui..client_noop,leaves..tutorial_get..explicit_noop", "net1 net2"),
         "G0": ("normal..tutorial1", "net0"),
     }
     restriction, nets = table[name]
@@ -338,6 +347,7 @@ class Run:
         self.runner: Any = None
         self.crash: Any = None
         self.wiped: list[tuple[str, str]] = []
+        self.late: dict[str, Any] = {}
 
     # -- store model -----------------------------------------------------------
     def bit(self, where: str, key: tuple[str, str]) -> bool:
@@ -451,7 +461,7 @@ class Run:
             return options[0]
         v = z3.Int(self.eng.fresh(f"status{ev['exec']}"))
         self.eng.assume(z3.And(v >= 0, v < len(options)), check=False)
-        passing = [i for i, s in enumerate(options) if s == "PASS"]
+        passing = [i for i, s in enumerate(options) if s in ("PASS", "LATE:PASS")]
         self.nonpass_terms.append(z3.If(z3.Or(*[v == i for i in passing]), 0, 1) if passing else z3.IntVal(1))
         self.eng.assume(z3.Sum(*self.nonpass_terms) <= c.max_nonpass if len(self.nonpass_terms) > 1 else self.nonpass_terms[0] <= c.max_nonpass, check=False)
         return options[self.eng.concretize(v, f"status{ev['exec']}")]
@@ -643,8 +653,15 @@ def prepare(eng: symx.Engine, scenario: Scenario, config: Config) -> Run:
     return run
 
 
+def _deliver_late(wid: str) -> None:
+    run = CUR
+    if run is not None and wid in run.late:
+        run.runner.job.result.tests.append(run.late.pop(wid))
+
+
 def traverse(run: Run, params: dict[str, Any] | None = None) -> None:
     """Run all workers to completion under the scheduler; exceptions are recorded in run.crash."""
+    vsched.STATUS_WAIT_HOOK = _deliver_late
     graph = run.graph
     params = params if params is not None else run.scenario.param_dict()
     workers = sorted(graph.workers.values(), key=lambda w: w.params["name"])
